@@ -94,6 +94,8 @@ PROFILES = {
     "dedupself": dict(BASE, ntasks=(5, 10), nseg=(2, 4), p_dedup=0.6, p_task=0.25, p_item=0.15, p_dirty=0.15, ndfn=(1, 1), nkeys=1,
                       nkinds=(1, 2), p_dself=0.6, dbinds=("fn", "inst1")),
     "dedupsync": dict(BASE, ntasks=(3, 9), p_dedup=0.4, p_task=0.25, p_item=0.2, p_dirty=0.25, p_sync=0.2),
+    "dedupcatch": dict(BASE, ntasks=(4, 9), nseg=(2, 4), p_dedup=0.5, p_task=0.2, p_item=0.25, p_dirty=0.15, ndfn=(1, 1), nkeys=1,
+                       nkinds=(2, 2), p_errleaf=0.15, p_raise=0.1, p_catch=0.7),
     "overflowbatch": dict(BASE, ntasks=(4, 9), nleaf=(1, 3), p_task=0.45, p_item=0.45, p_sync=0.1, maxstack=(3, 6), ncalls=3,
                           nkinds=(2, 3), p_catch=0.3),
     "cleanup": dict(BASE, ntasks=(3, 8), ctx_types=("cleanup", "cleanup", "async"), p_ctx=0.6, p_result=0.7, p_sync=0.1, p_raise=0.1, p_catch=0.3),
@@ -507,16 +509,20 @@ def chain(depth, variant="plain"):
     return program(tasks)
 
 
-def enum_dedup(max_len=3, bodies=(1, 2), nactors=2, bind="fn", key=1, spell0=0):
+def enum_dedup(max_len=3, bodies=(1, 2), nactors=2, bind="fn", key=1, spell0=0, body_kind=1, catching=False):
     """Complete family for C12: the root yields [D(first call), actor_1, ..., actor_n]; every actor is a sequence of
     <= max_len steps over {W: wait one flush round, C: call the deduplicated function, X: dirty() then call};
-    the deduplicated body waits for 1 or 2 flush rounds.  One function, one key, one batch kind."""
+    the deduplicated body waits for 1 or 2 flush rounds.  One function, one key, one batch kind.
+    catching: the body first catches an error delivered at a yield (it is resumed through generator.throw());
+    body_kind=2: the body waits on a second batch kind, so that either side can be flushed first."""
     steps = []
     for n in range(1, max_len + 1):
         steps += list(itertools.product("WCX", repeat=n))
     progs = []
     for nb in bodies:
-        body = [seg([], term("yield", S("I", 1))) for _ in range(nb)] + [seg([], term("return"))]
+        body = [seg([], term("yield", S("I", body_kind))) for _ in range(nb)] + [seg([], term("return"))]
+        if catching:
+            body = [seg([], term("yield", S("E", 0), catch=True))] + body
         for combo in itertools.product(steps, repeat=nactors):
             tasks = [None]                      # index 0 = task 1 (root), filled below
             insts = []
@@ -543,7 +549,7 @@ def enum_dedup(max_len=3, bodies=(1, 2), nactors=2, bind="fn", key=1, spell0=0):
                 segs.append(seg([], term("return")))
                 tasks[aid - 1] = {"segs": segs}
             tasks[0] = {"segs": [seg([], term("yield", S("Lst", 0, leaves))), seg([], term("return"))]}
-            progs.append(program(tasks))
+            progs.append(program(tasks, kinds=[kind() for _ in range(max(1, body_kind))]))
     return progs
 
 
